@@ -24,6 +24,8 @@ def std_run(ctx, spec):
         for j in jobs:
             b = bins[(j["harness"], tuple(j.get("flags", ())), bool(j.get("sanitize", False)))]
             binaries[os.path.basename(b)] = b
+            ctx.bininfo = getattr(ctx, "bininfo", {})
+            ctx.bininfo[os.path.basename(b)] = dict(name=j["harness"], flags=list(j.get("flags", ())), sanitize=bool(j.get("sanitize", False)))
             w = j.get("workers", D.NCPU if len(jobs) == 1 else max(6, D.NCPU // 2))
             # the per-job deadline only guards against hangs: the quick-tier tables are sized for ~1/3 of it on an idle 16-core machine
             deadline = j.get("deadline")
@@ -43,7 +45,7 @@ def std_run(ctx, spec):
 def replay_file(ctx, spec, path):
     with open(path) as f:
         r = json.load(f)
-    bins = D.compile_all(ctx, [dict(name=re.sub(r"(_san)?[0-9a-f]{6}$", "", r["harness"]), sanitize="_san" in r["harness"])])
+    bins = D.compile_all(ctx, [dict(name=re.sub(r"(_san)?[0-9a-f]{6}$", "", r["harness"]), sanitize="_san" in r["harness"], flags=tuple(r.get("harness_flags") or ()))])
     b = list(bins.values())[0]
     cand = dict(case=r["case"], name=r["obligation"], kind=r["kind"], model=r["model"], binary=os.path.basename(b), profile=r.get("profile", "double"),
                 detail=r.get("detail", ""))
